@@ -100,6 +100,23 @@ CLAIMED['C13'] = (
     'lemma; generate_rekey_ike_sa_request is an ASSUMED contract.' + TIERB_NOTE,
     'DESIGN.md section 6 C13')
 
+CLAIMED['C04'] = (
+    'Proof, for all nonces, SPIs, shared secrets (any octets, any length), every output length and every negotiable '
+    'suite: Prf.prf is HMAC with the negotiated hash; Prf.prfplus equals the RFC 7296 2.13 definition '
+    '(T1 = prf(K, S|0x01), Tn = prf(K, Tn-1|S|n), truncated) by an inductive loop invariant; '
+    'generate_ike_sa_key_material computes SKEYSEED = prf(Ni|Nr, g^ir) (or prf(SK_d_old, g^ir|Ni|Nr) on rekey), '
+    'expands prf+(SKEYSEED, Ni|Nr|SPIi|SPIr) and the seven keys are its consecutive slices in the order '
+    'd, ai, ar, ei, er, pi, pr with the lengths the negotiated PRF / integrity algorithm / cipher prescribe, built '
+    'from transforms of the chosen proposal; generate_child_sa_key_material slices prf+(SK_d, seed) in the order '
+    'ei, ai, er, ar with AH taking no encryption key.  Evaluated facts: the PRF / integrity / cipher tables carry the '
+    'IANA numbers and truncations, digest sizes, the five MODP primes equal the RFC 3526 closed form '
+    '2^n - 2^(n-64) - 1 + 2^64(floor(2^(n-130) pi) + c), groups 19-21 are P-256/384/521.',
+    'HMAC, AES and the DH primitives are the cryptography library (T2/T3: uninterpreted); the fixed-width encoding of '
+    'DH public values (int.to_bytes(key_len)) in MODPDH/ECDH.__init__ operates on library objects and is not under '
+    'contract (key_len = hex digits / 2 follows from the evaluated prime lengths); which seed the callers pass '
+    '(g^ir | Ni | Nr with PFS) belongs to the handler contracts, assumed at this stage.',
+    'DESIGN.md section 6 C04')
+
 NOT_YET ='not yet claimed: contracts for this property are still being brought under the verifier (DESIGN.md section 6)'
 
 
